@@ -17,6 +17,9 @@ type Explorer struct {
 	Exec      func(prefix []int) *vsched.Sched
 	Check     func(x *vsched.Sched)
 	Stop      func() bool // budget
+	// Sharding: the subtrees hanging off the root execution are numbered in exploration order and a shard
+	// explores those with number % NShards == Shard; shard 0 also checks the root execution itself.
+	Shard, NShards int
 
 	Schedules   int64
 	Points      int64
@@ -37,7 +40,9 @@ func preemptionsBefore(tr []vsched.PointRec, i int) int {
 }
 
 // Run explores everything reachable from the given prefix.
-func (e *Explorer) Run(prefix []int) {
+func (e *Explorer) Run(prefix []int) { e.run(prefix, true) }
+
+func (e *Explorer) run(prefix []int, root bool) {
 	if e.Stop != nil && e.Stop() {
 		e.Capped = true
 		return
@@ -54,12 +59,16 @@ func (e *Explorer) Run(prefix []int) {
 		}
 		e.DetChecked++
 	}
-	e.Schedules++
-	e.Points += int64(len(x.Trace))
-	if len(x.Trace) > e.MaxDepth {
-		e.MaxDepth = len(x.Trace)
+	sharded := root && e.NShards > 1
+	if !sharded || e.Shard == 0 {
+		e.Schedules++
+		e.Points += int64(len(x.Trace))
+		if len(x.Trace) > e.MaxDepth {
+			e.MaxDepth = len(x.Trace)
+		}
+		e.Check(x)
 	}
-	e.Check(x)
+	child := 0
 	tr := x.Trace
 	choices := x.Choices()
 	for i := len(prefix); i < len(tr); i++ {
@@ -78,8 +87,12 @@ func (e *Explorer) Run(prefix []int) {
 			continue
 		}
 		for alt := 1; alt < p.N; alt++ {
+			child++
+			if sharded && (child-1)%e.NShards != e.Shard {
+				continue
+			}
 			np := append(append([]int{}, choices[:i]...), alt)
-			e.Run(np)
+			e.run(np, false)
 		}
 	}
 }
